@@ -38,7 +38,6 @@ Qed.
 
 (* ---------------------------------------------------------------- wf_b reflects wf *)
 
-Definition root_lo (n : tree) : nat := 0%nat.
 
 Lemma wf_node_sound : forall h isroot n,
   wf_node t h isroot n = true -> wfn (if isroot then root_lo n else t_min t) h n.
@@ -52,7 +51,7 @@ Proof.
     destruct ks; [|discriminate]. constructor. unfold root_lo. cbn [n_leaf].
     destruct H2 as [Hr|H2]; [subst isroot; lia|]. apply Nat.leb_le in H2. destruct isroot; lia.
   - apply andb_true_iff in H3 as (H3 & Hall). apply andb_true_iff in H3 as (H3 & Hk).
-    apply Nat.eqb_eq in Hk.
+    apply andb_true_iff in H3 as (Hh & H1'). apply Nat.leb_le in H1'. apply Nat.eqb_eq in Hk.
     constructor; [|assumption|].
     + unfold root_lo. cbn [n_leaf]. destruct H2 as [Hr|H2]; [subst isroot; lia|]. apply Nat.leb_le in H2. destruct isroot; lia.
     + rewrite forallb_forall in Hall. apply Forall_forall. intros c Hc. apply (IH false c). now apply Hall.
@@ -68,11 +67,13 @@ Proof.
     rewrite !andb_true_iff, orb_true_iff, !Nat.leb_le, Nat.eqb_eq. repeat split; try lia.
     destruct isroot; [now left|right; lia].
   - inversion Hh; subst h'. unfold root_lo in Hb. cbn [n_leaf] in Hb.
+    assert (1 <= t_min t)%nat by (unfold t_min; lia).
     rewrite !andb_true_iff, orb_true_iff, !Nat.leb_le, Nat.eqb_eq, negb_true_iff, Nat.eqb_neq.
     repeat split; try lia.
     + destruct isroot; [now left|right; lia].
     + destruct ks as [|c ks]; [discriminate|]. inversion Hall; subst.
       match goal with H : BTreeWf.wfn _ _ h c |- _ => pose proof (wfn_pos t Ht _ _ _ H) end. lia.
+    + destruct isroot; lia.
     + apply forallb_forall. intros c Hc. rewrite Forall_forall in Hall. apply (IH false c). now apply Hall.
 Qed.
 
